@@ -8,6 +8,15 @@ CHECKS = {
  "C01": ("exploration", "property-based testing against a sorted-set reference model (proptest, regime-directed generators) + complete small-scope enumeration",
          "Every query of the plain bitvector is compared with an independent sorted-set model on generated bit sequences that are directed at the internal regimes (short/long select superblocks for ones and zeros, partial words/blocks, many superblocks), built through 9 public routes; every bit string up to length 12 (16 thorough) is enumerated with every argument. Held-on-everything-explored, not a proof.",
          "Trusts the reference model (binary search on a sorted position list) and rustc; vectors limited to 140k bits quick / 2M bits thorough; above 20k bits arguments are structural edges + sampled.", "DESIGN.md §3 C01"),
+ "C13": ("exploration", "round-trip/differential property testing of mapped views against loaded values over generated multi-structure files, with enumeration of bad offsets and element-granular truncations",
+         "Files of 1..6 concatenated mappable structures (both mapping modes) are mapped structure by structure: content must equal the in-memory value through every accessor, views must tile the file exactly, six out-of-file offsets per structure must be refused with Err (not a panic), and for every truncation the cut structure must be refused while earlier ones still map.",
+         "Views are only requested at structure starts or outside the file; large files are truncated around structure boundaries and at generated points.", "DESIGN.md §3 C13"),
+ "C14": ("fault_enumeration", "fault injection with complete enumeration of fault points per generated structure: every strict prefix for load/skip_option, every write budget for serialize, every element truncation for mapped views, every RLIMIT_FSIZE value for the file writers",
+         "For each generated structure every fault point of each kind is executed against an outcome predicate (Err, never a panic or a value; the sink's own error with a prefix written; refusal of cut views; writers never report success for an incomplete file). Cases run in single-threaded worker processes because the file-size limit is process wide.",
+         "Faults are permanent within one execution; file-size limits stand in for other write errors; structures above 3000 bytes are cut at element boundaries +-1.", "DESIGN.md §3 C14"),
+ "C19": ("exploration", "model-based property testing over enable/serialize/load/clone histories with a support-set model, plus differential loading of support-stripped composite files and skip_option position checks",
+         "Histories over the plain bitvector's support structures are interpreted against a set model (supports reported, bits unchanged, enabled queries correct after every step, load preserves exactly the written subset, final value canonical); sparse vectors / wavelet matrices / cores re-encoded without any embedded support must load equal to the original; skip_option must stop exactly at a marker after any optional value.",
+         "Support stripping relies on the harness's document-only codec; only enabled queries are asked.", "DESIGN.md §3 C19"),
  "C17": ("exploration", "complete enumeration of (offset,width) pairs and mask arguments + property-based testing of in-word select and helpers against bit-by-bit references, in three build configurations (portable and BMI2 select)",
          "read_int/write_int are executed for every (offset 0..191, width 1..64) with 9 value/background combinations and compared bit by bit (field and all other bits); select for every rank of structured and generated words under both the portable and the PDEP implementation; masks for all n; bit_len/reverse_low/rounding helpers against u128 arithmetic.",
          "Trusts the bit-by-bit reference loops; values and words are sampled (offset/width/mask spaces are complete); rounding helpers only on their documented non-overflowing domains.", "DESIGN.md §3 C17"),
